@@ -239,6 +239,25 @@ def known_findings(pid):
     return [f for f in json.load(open(path))['findings'] if f['property'] == pid]
 
 
+class Timeout(BaseException):
+    pass
+
+
+def with_alarm(fn, seconds=10):
+    """run fn() under a wall-clock alarm; raises Timeout (a BaseException, so `except Exception` in the code under test cannot swallow it)"""
+    import signal
+
+    def h(sig, frm):
+        raise Timeout()
+    old = signal.signal(signal.SIGALRM, h)
+    signal.setitimer(signal.ITIMER_REAL, seconds)
+    try:
+        return fn()
+    finally:
+        signal.setitimer(signal.ITIMER_REAL, 0)
+        signal.signal(signal.SIGALRM, old)
+
+
 class Ctx:
     """what a property module sees"""
 
